@@ -371,3 +371,146 @@ theorem decryptRest_emitted (L : SealLaws P.prims) (s : St σ) (p : Pkt) (d : De
   simp only [hdec, QuicFrameSeq.frames_roundtrip frames hwf]
 
 end TLX.Lemmas.QuicSession
+
+namespace TLX.Lemmas.QuicSession
+open TLX TLX.Quic TLX.Cipher TLX.Quic.Session TLX.Spec.QuicSender TLX.Spec.QuicFrames
+
+variable {σ : Type} (P : Params σ)
+
+/-! ### Initial / Handshake / 0-RTT levels -/
+
+/-- Assumptions on the TLS handshake parser and the key log for the handshake phase of ONE connection: the parser
+    never raises, and whenever it reports new data with a client random and a cipher suite, these resolve — through
+    `set_tls_decryptors`' suite selection and `dev_quic_keys` — to the connection's suite `sel` and key groups `kg`. -/
+structure TlsStable (v : Version) (sel : SuiteSel) (kg : KeyGroups) : Prop where
+  noRaise : ∀ t c, (P.tlsUpdate t c).2 = none
+  resolves : ∀ t c cr cs, P.tlsNewData (P.tlsUpdate t c).1 = true →
+    P.tlsClientRandom (P.tlsUpdate t c).1 = some cr → P.tlsCiphersuite (P.tlsUpdate t c).1 = some cs →
+    selectSuite cs = some sel ∧ P.devQuicKeys sel v cr = .ok kg
+
+/-- the decryptor the session holds for a long-header level -/
+def installedDec (s : St σ) : Level → Option Dec
+  | .initial => s.decInitial | .handshake => s.decHandshake | .zeroRtt => s.decEarly | .oneRtt => none
+
+/-- the decryptors the sender's levels need (`want`) are installed -/
+structure LevelInv (v : Version) (want : Level → Option Dec) (s : St σ) : Prop where
+  version : s.version = v
+  dec : ∀ lv d, want lv = some d → installedDec s lv = some d
+
+/-- what `set_tls_decryptors` would (re-)install from `kg` agrees with the wanted decryptors -/
+def WantOk (sel : SuiteSel) (kg : KeyGroups) (want : Level → Option Dec) : Prop :=
+  (∀ d a b, want .handshake = some d → kg.hs = some (a, b) → d = { alg := sel.alg, server := some a, client := b }) ∧
+  (∀ d ek, want .zeroRtt = some d → kg.early = some ek → d = { alg := sel.alg, server := none, client := ek }) ∧
+  want .oneRtt = none
+
+theorem LevelInv.of {v : Version} {want : Level → Option Dec} {s a : St σ} (h : LevelInv v want s)
+    (h0 : a.version = s.version) (h1 : a.decInitial = s.decInitial)
+    (h2 : ∀ d, want .handshake = some d → a.decHandshake = some d)
+    (h3 : ∀ d, want .zeroRtt = some d → a.decEarly = some d) : LevelInv v want a := by
+  refine ⟨h0 ▸ h.version, fun lv d hwd => ?_⟩
+  cases lv with
+  | initial => show a.decInitial = some d; rw [h1]; exact h.dec .initial d hwd
+  | handshake => exact h2 d hwd
+  | zeroRtt => exact h3 d hwd
+  | oneRtt => exact h.dec .oneRtt d hwd
+
+theorem LevelInv.transfer {v : Version} {want : Level → Option Dec} {s a : St σ} (h : LevelInv v want s)
+    (h0 : a.version = s.version) (h1 : a.decInitial = s.decInitial) (h2 : a.decHandshake = s.decHandshake)
+    (h3 : a.decEarly = s.decEarly) : LevelInv v want a :=
+  h.of h0 h1 (fun d hd => by rw [h2]; exact h.dec .handshake d hd) (fun d hd => by rw [h3]; exact h.dec .zeroRtt d hd)
+
+theorem installGroups_out (s : St σ) (sel : SuiteSel) (kg : KeyGroups) : (installGroups s sel kg).out = s.out := by
+  unfold installGroups
+  repeat' split
+  all_goals rfl
+
+theorem installGroups_levelInv {v : Version} {want : Level → Option Dec} {sel : SuiteSel} {kg : KeyGroups}
+    (hw : WantOk sel kg want) (s : St σ) (h : LevelInv v want s) : LevelInv v want (installGroups s sel kg) := by
+  obtain ⟨w1, w2, w3⟩ := hw
+  unfold installGroups
+  split
+  · exact h.transfer rfl rfl rfl rfl
+  · rename_i hsS hsC hhs
+    have hH : ∀ d, want .handshake = some d →
+        (some { alg := sel.alg, server := some hsS, client := hsC } : Option Dec) = some d :=
+      fun d hd => by rw [w1 d hsS hsC hd hhs]
+    have hE0 : ∀ d, want .zeroRtt = some d → s.decEarly = some d := fun d hd => h.dec .zeroRtt d hd
+    split
+    · exact h.of rfl rfl hH hE0
+    · split
+      · exact h.of rfl rfl hH hE0
+      · rename_i ek hek
+        exact h.of rfl rfl hH (fun d hd => by rw [w2 d ek hd hek])
+
+theorem handleCrypto_stable {v : Version} {want : Level → Option Dec} {sel : SuiteSel} {kg : KeyGroups}
+    (hst : TlsStable P v sel kg) (hw : WantOk sel kg want) (s : St σ) (h : LevelInv v want s) (p : Pkt)
+    (f : Frame.Parsed) (c : CryptoIn) :
+    (handleCrypto P s p f c).2 = none ∧ (handleCrypto P s p f c).1.out = s.out ++ [mkOut p f] ∧
+    LevelInv v want (handleCrypto P s p f c).1 := by
+  unfold handleCrypto
+  have hnr := hst.noRaise s.tls c
+  have hres := hst.resolves s.tls c
+  cases hu : P.tlsUpdate s.tls c with
+  | mk t e =>
+    rw [hu] at hnr hres
+    simp only at hnr hres
+    subst hnr
+    simp only
+    unfold afterTls
+    simp only
+    by_cases hnd : P.tlsNewData t = true
+    · rw [if_pos hnd]
+      cases hcr : P.tlsClientRandom t with
+      | none => exact ⟨rfl, rfl, h.transfer rfl rfl rfl rfl⟩
+      | some cr =>
+        cases hcs : P.tlsCiphersuite t with
+        | none => exact ⟨rfl, rfl, h.transfer rfl rfl rfl rfl⟩
+        | some cs =>
+          obtain ⟨r1, r2⟩ := hres cr cs hnd hcr hcs
+          have hv : s.version = v := h.version
+          subst hv
+          simp only [setTlsDecryptors, r1, r2]
+          have hi : LevelInv _ want (installGroups { s with tls := t, suite := some sel } sel kg) :=
+            installGroups_levelInv hw _ (h.transfer rfl rfl rfl rfl)
+          have ho : (installGroups { s with tls := t, suite := some sel } sel kg).out = s.out :=
+            installGroups_out _ _ _
+          refine ⟨by first | rfl | trivial, ?_, hi.transfer rfl rfl rfl rfl⟩
+          show (installGroups _ sel kg).out ++ [mkOut p f] = s.out ++ [mkOut p f]
+          rw [ho]
+    · rw [if_neg hnd]
+      exact ⟨rfl, rfl, h.transfer rfl rfl rfl rfl⟩
+
+theorem handleFrames_stable {v : Version} {want : Level → Option Dec} {sel : SuiteSel} {kg : KeyGroups}
+    (hst : TlsStable P v sel kg) (hw : WantOk sel kg want) (p : Pkt) (fs : List Frame.Parsed) (s : St σ)
+    (h : LevelInv v want s) :
+    (handleFrames P s p fs).2 = none ∧ (handleFrames P s p fs).1.out = s.out ++ fs.filterMap (exportOf p) ∧
+    LevelInv v want (handleFrames P s p fs).1 := by
+  induction fs generalizing s with
+  | nil => exact ⟨rfl, by simp [handleFrames], h⟩
+  | cons f fs ih =>
+    have hf : (handleFrame P s p f).2 = none ∧ (handleFrame P s p f).1.out = s.out ++ (exportOf p f).toList ∧
+        LevelInv v want (handleFrame P s p f).1 := by
+      unfold handleFrame
+      split
+      · rename_i l off len data
+        have := handleCrypto_stable P hst hw s h p (.crypto l off len data) (cryptoIn p off len data)
+        exact ⟨this.1, by simpa [exportOf] using this.2.1, this.2.2⟩
+      · exact ⟨rfl, by simp [exportOf], h.transfer rfl rfl rfl rfl⟩
+      · split <;> exact ⟨rfl, by simp [exportOf], h.transfer rfl rfl rfl rfl⟩
+      · rename_i h1 h2 h3
+        refine ⟨rfl, ?_, h⟩
+        cases f <;> simp [exportOf] <;> first | exact absurd rfl (h1 _ _ _ _) | exact absurd rfl (h2 _ _ _ _ _ _ _ _ _) | skip
+    obtain ⟨a1, a2, a3⟩ := hf
+    unfold handleFrames
+    cases hh : handleFrame P s p f with
+    | mk s1 e =>
+      rw [hh] at a1 a2 a3
+      simp only at a1 a2 a3
+      subst a1
+      simp only
+      obtain ⟨i1, i2, i3⟩ := ih s1 a3
+      refine ⟨i1, ?_, i3⟩
+      rw [i2, a2, List.append_assoc]
+      cases hx : exportOf p f <;> simp [List.filterMap_cons, hx]
+
+end TLX.Lemmas.QuicSession
